@@ -67,7 +67,12 @@ def float_resize_traces(rng, count, steps=14):
                 if cand and rng.random() < 0.6:
                     x = rng.choice(cand)          # reach a fuzzy quotient through the dt setter
                 o = {"a": "set_dt", "x": x, "x_s": S(x)}
-                o["nq"] = math.ceil(impl.rec.duration / S(x))
+                if rng.random() < 0.25:
+                    # a step time that differs from the current one by a relative 2^-40 only: still a NEW step time - the
+                    # size formula is evaluated on it (an exact multiple of dt becomes a shade more than that many steps)
+                    x = st["dtk"]
+                    o = {"a": "set_dt", "x": x, "x_s": float(impl.rec.dt) * (1.0 + rng.choice([-1.0, 1.0]) * 2.0 ** -40)}
+                o["nq"] = math.ceil(impl.rec.duration / o["x_s"])
             elif r < 0.88:
                 cur = st["dtk"]
                 x = cur * rng.randint(0, 6) if rng.random() < 0.7 else rng.randint(0, 6 * cur)
